@@ -246,22 +246,36 @@ def run_case(case):
     if any(len(sh["k"][0]) > 1 and sh["kind"] != "SP" for e in bs for sh in e["shells"]):
         classes.append("shell:generalized")
     classes += ["nel:%d" % len(bs), "num:%s/%s" % (case["style_e"], case["style_c"])]
-    fd, path = tempfile.mkstemp(suffix="." + case["fmt"], dir=os.environ.get("TMPDIR", "/tmp"))
+    # the SAME path is rewritten with a different basis set for every case of this worker process (a result that
+    # depends on anything but the file content - a cache keyed on the path, say - shows as a mismatch)
+    path = os.path.join(os.environ.get("TMPDIR", "/tmp"), "vmon-c18-%d.%s" % (os.getpid(), case["fmt"]))
     try:
-        with os.fdopen(fd, "w") as fh:
+        with open(path, "w") as fh:
             fh.write(text)
         parsed = cm.call(parser, path)
         evals += 1
         compare_parsed(parsed, expect, what, viols, header)
+        # the caller may do what it likes with the returned data: a second call must again return what the file says
+        if isinstance(parsed, dict) and parsed:
+            k0 = next(iter(parsed))
+            try:
+                if parsed[k0]:
+                    arr = parsed[k0][0][1]
+                    if isinstance(arr, np.ndarray) and arr.flags.writeable:
+                        arr *= 2.0
+                    parsed[k0].pop()
+                parsed["Xx"] = []
+            except Exception:  # noqa: BLE001
+                pass
         again = cm.call(parser, path)
         evals += 1
-        if not isinstance(parsed, cm.Raised) and not isinstance(again, cm.Raised):
-            from vmon.monitors.install import digest
-
-            if digest(parsed) != digest(again):
-                viols.append(cm.viol("%s returned different data on a second call with the same file" % what, "parse_repeat"))
+        nv = len(viols)
+        compare_parsed(again, expect, what + " (second call, after the caller modified the first result)", viols, header)
+        for v in viols[nv:]:
+            v["qty"] = "parse_repeat:" + v["qty"]
     finally:
-        os.remove(path)
+        if os.path.exists(path):
+            os.remove(path)
     for v in viols:
         v["file_head"] = text[:400]
         v["fmt"] = case["fmt"]
